@@ -180,7 +180,7 @@ def run(ctx: common.Ctx):
   phase('swf+repeated')
   # ================================================================== trajectory_from_step
   grid = [(o, i, s) for o in range(5) for i in range(5) for s in (False, True)]
-  extra = ctx.n(20, 400)
+  extra = ctx.n(20, 300)
   for ci in range(len(grid) + extra):
     if ci < len(grid):
       outer, inner, swi = grid[ci]
@@ -569,7 +569,7 @@ def run(ctx: common.Ctx):
 
   phase('model')
   # ================================================================== gradient probes (sentinel)
-  ngrad = ctx.n(10, 80)
+  ngrad = ctx.n(10, 60)
   for gi in range(ngrad):
     f0 = facs[int(rng.integers(0, len(facs)))]
     while int(np.prod(f0)) > 12 or len(f0) < 2:
